@@ -53,3 +53,39 @@ Theorem C11_redirect_detected : forall crc shards k j itemsk itemsj, good_shards
   load_data crc (mkImg (POk 1) (mkDir (POk names') (d_cks d) (d_file d)) empty_dir) = LErr.
 Proof. exact redirect_detected. Qed.
 Print Assumptions C11_redirect_detected.
+
+(** "never stuck": the shard loader pool (Conc/LoaderPool.v: a feeder, an unbuffered channel, c loader
+    goroutines; a loader that hits a read error goes on receiving) *)
+From Coq Require Import List Arith Lia Bool Sorting.Permutation.
+From NV Require Import Base.Sched Conc.LoaderPool Conc.LoaderPoolStmts Conc.LoaderPoolProofs.
+
+(** for every number of shards, every set of failing shards, every c >= 1 and every schedule: a state
+    that is not finished always has an enabled goroutine ... *)
+Theorem C11_loader_no_deadlock : forall n b c sched, (1 <= c)%nat ->
+  let y := runS true c (init n b c) sched in
+  quiescentL y = true \/ exists i, enabled true c y i = true.
+Proof. exact loader_no_deadlock. Qed.
+Print Assumptions C11_loader_no_deadlock.
+
+(** ... every enabled step strictly decreases a measure that starts at 3n + 3c + 4, so every run in
+    which enabled goroutines are eventually scheduled terminates ... *)
+Theorem C11_loader_terminates : forall n b c sched i, (1 <= c)%nat ->
+  let y := runS true c (init n b c) sched in
+  enabled true c y i = true -> (measure' (stepS true c y i) < measure' y)%nat.
+Proof. exact loader_measure'. Qed.
+Print Assumptions C11_loader_terminates.
+
+(** ... and then every shard has been read exactly once and exactly the failing ones are reported *)
+Theorem C11_loader_complete : forall n b c sched, (1 <= c)%nat ->
+  let y := runS true c (init n b c) sched in
+  quiescentL y = true ->
+  Permutation (loaded (sh y)) (seq 0 n) /\ Permutation (errors (sh y)) (filter b (seq 0 n)).
+Proof. exact loader_complete. Qed.
+Print Assumptions C11_loader_complete.
+
+(** regression witness: the original loaders (return on the first error) deadlock with three failing
+    shards and two loader goroutines *)
+Example C11_loader_original_stuck :
+  let y := runS false 2 (init 3 (fun _ => true) 2) [0;1;2;0;0;1;0;2;0;0;0;1;2;0;1;2]%nat in
+  quiescentL y = false /\ forallb (fun i => negb (enabled false 2 y i)) [0;1;2]%nat = true.
+Proof. exact loader_original_stuck. Qed.
